@@ -57,7 +57,7 @@ impl RuleMaker for RegexRule {
 }
 
 lazy_static! {
-    static ref VALID_REPETITION_QUANTIFIER: Regex = Regex::new("\\{([0-9]+(?:,[0-9]+)?)\\}")
+    static ref VALID_REPETITION_QUANTIFIER: Regex = Regex::new("\\{([0-9]+(?:,[0-9]*)?)\\}")
         .expect("valid repetition quantifier regex must compile");
     static ref MOVED_REPETITION_QUANTIFIER: Regex =
         Regex::new("<<<<(.+?)>>>>").expect("moved repetition quantifier regex must compile");
@@ -93,8 +93,8 @@ pub(super) fn escape_misused_repetition_quantifier(expression: &str) -> String {
                 if let Some(ch2) = chars.next() {
                     expression.push(ch2);
                     // an escape that carries its own braces (`\p{L}`,
-                    // `\x{1F600}`): they are not a misused quantifier
-                    if matches!(ch2, 'p' | 'P' | 'x' | 'u' | 'U')
+                    // `\x{1F600}`, `\b{start}`): they are not a misused quantifier
+                    if matches!(ch2, 'p' | 'P' | 'x' | 'u' | 'U' | 'b' | 'B')
                         && chars.clone().next() == Some('{')
                     {
                         for ch3 in chars.by_ref() {
